@@ -92,6 +92,10 @@ type Clause struct {
 	Label string
 	E     Expr
 	Src   string
+	// NoExport: a postcondition the property demands (`expects`): it is an obligation of the function like any
+	// `ensures`, but callers never assume it -- so a clause that fails (a recorded finding) cannot leak into
+	// the proofs of the callers
+	NoExport bool
 }
 
 type GhostAssign struct {
@@ -537,7 +541,7 @@ func (p *parser) parsePostfix(x Expr) Expr {
 
 var stmtKeywords = map[string]bool{
 	"func": true, "iface": true, "loop": true, "pure": true, "ghost": true, "lemma": true,
-	"requires": true, "ensures": true, "modifies": true, "invariant": true, "decreases": true,
+	"requires": true, "ensures": true, "expects": true, "modifies": true, "invariant": true, "decreases": true,
 	"exitassert": true, "hint": true, "transparent": true, "trusted": true, "opaque": true, "axiom": true, "params": true,
 }
 
@@ -603,7 +607,7 @@ func ParseSpec(pkg, file, text string) (sf *SpecFile, err error) {
 				if p.peek().k != "eof" {
 					panic("trailing tokens after expression: " + p.peek().v)
 				}
-				return Clause{label, e, strings.Join(strings.Fields(rest[i+1:]), " ")}
+				return Clause{Label: label, E: e, Src: strings.Join(strings.Fields(rest[i+1:]), " ")}
 			}
 			switch kw {
 			case "func", "iface", "lemma":
@@ -632,11 +636,13 @@ func ParseSpec(pkg, file, text string) (sf *SpecFile, err error) {
 					panic("requires outside func")
 				}
 				curF.Requires = append(curF.Requires, clause())
-			case "ensures":
+			case "ensures", "expects":
 				if curF == nil {
 					panic("ensures outside func")
 				}
-				curF.Ensures = append(curF.Ensures, clause())
+				cl := clause()
+				cl.NoExport = kw == "expects"
+				curF.Ensures = append(curF.Ensures, cl)
 			case "exitassert":
 				if curF == nil {
 					panic("exitassert outside func")
